@@ -329,3 +329,7 @@ fn debug_int_value() {
          \n)",
     );
 }
+
+#[cfg(kani)]
+#[path = "/verif/kani/number.rs"]
+mod kani_verif;
